@@ -173,9 +173,11 @@ def handleTurn (env : Env) (s : State E) : State E :=
     | none => nextState env s s.now false (s.writes + cp env)
 
 /-- The closing pass of a deletion: the patch (records purged, last-handled) is merge-patched if it has
-    content, then the JSON patch removes the own finalizer; with no other finalizer the object is gone. -/
+    content (one more round trip), then the JSON patch removes the own finalizer; with no other finalizer the
+    object is gone, else the echo of the second request is the next event. -/
 def releaseTurn (env : Env) (s : State E) : State E :=
-  { nextState env s (s.now + env.lat) env.foreignFins (s.writes + (if changedOf env s then 2 else cp env + 1)) with
+  { nextState env s (s.now + (if changedOf env s || env.constPatch then env.rtt else 0) + env.lat) env.foreignFins
+      (s.writes + (if changedOf env s then 2 else cp env + 1)) with
     blocked := false, gone := !env.foreignFins }
 
 /-- One turn of the closed loop: consume the pending event, process it, `apply`. -/
